@@ -34,11 +34,22 @@ thread_local! {
     static RESIDUALS: RefCell<Option<Vec<FP>>> = RefCell::new(None);
     /// (static scalars, dynamic scalars, table size) of every precomputed-table MSM since `tap_start`
     static MSM_INPUTS: RefCell<Vec<(Vec<Scalar>, Vec<Scalar>, usize)>> = RefCell::new(Vec::new());
+    /// number of plain (not precomputed-table) multiscalar products since `tap_start`
+    static PLAIN_MSMS: std::cell::Cell<usize> = std::cell::Cell::new(0);
 }
 
 pub fn tap_start() {
     RESIDUALS.with(|l| *l.borrow_mut() = Some(Vec::new()));
     MSM_INPUTS.with(|l| l.borrow_mut().clear());
+    PLAIN_MSMS.with(|c| c.set(0));
+}
+pub fn plain_msm_count() -> usize {
+    PLAIN_MSMS.with(|c| c.get())
+}
+/// the tapped precomputed-table MSM is the whole final check of a verification call only if it is the only
+/// multiscalar product the call made
+pub fn tap_is_whole_check() -> bool {
+    plain_msm_count() == 0 && MSM_INPUTS.with(|l| l.borrow().len()) == 1
 }
 pub fn msm_inputs() -> Vec<(Vec<Scalar>, Vec<Scalar>, usize)> {
     MSM_INPUTS.with(|l| l.borrow().clone())
@@ -187,6 +198,7 @@ where
     let p: Vec<FP> = points.into_iter().map(|x| x.borrow().clone()).collect();
     // dalek's backends assert equal lengths; keep the same contract
     assert_eq!(s.len(), p.len(), "msm length mismatch");
+    PLAIN_MSMS.with(|c| c.set(c.get() + 1));
     let mut r = FP::default();
     for (s, p) in s.iter().zip(p.iter()) {
         r.axpy(s, p);
@@ -241,8 +253,10 @@ impl VartimePrecomputedMultiscalarMul for FPPre {
         if RESIDUALS.with(|l| l.borrow().is_some()) {
             MSM_INPUTS.with(|l| l.borrow_mut().push((ss.clone(), ds.clone(), self.0.len())));
         }
+        let before = PLAIN_MSMS.with(|c| c.get());
         let mut r = msm(ss.iter(), self.0.iter());
         r.axpy(&Scalar::ONE, &msm(ds.iter(), pts?));
+        PLAIN_MSMS.with(|c| c.set(before));
         let r = r.norm();
         RESIDUALS.with(|l| {
             if let Some(v) = l.borrow_mut().as_mut() {
